@@ -288,7 +288,7 @@ func runC14ControlledInner(c *Ctx, s *C14Spec) {
 		for j := range ref {
 			c.Eval(1)
 			got := results[k][j]
-			c.T(got.brief())
+			c.T(got.tkey())
 			a, b := got, ref[j]
 			a.Out, b.Out = Captured{}, Captured{}
 			// byte counts are compared per client at the end (one tape per client)
